@@ -101,6 +101,43 @@ Theorem refused_or_blocked_taskrunner : forall s t th o,
 Proof. exact tr_refused_l. Qed.
 Print Assumptions refused_or_blocked_taskrunner.
 
+(* ---- MapReduce (core/mr executeMappers) and fx (walkLimited) worker pools ---- *)
+
+(* cap_never_exceeded: at every step of every schedule, for any number of items and any
+   placement of panicking mapper / walk functions: workers inside the user function <= live
+   worker goroutines <= slots taken (live + the slot the dispatcher may hold in hand) <= n. *)
+Theorem cap_never_exceeded_mr : forall n items sched,
+  let s := wexec WMr n items sched in
+  wrunning s <= wlive s /\ wlive s + whold s = wc s /\ wc s <= n.
+Proof. exact (wp_cap_l WMr). Qed.
+Print Assumptions cap_never_exceeded_mr.
+
+Theorem cap_never_exceeded_fx : forall n items sched,
+  let s := wexec WFx n items sched in
+  wrunning s <= wlive s /\ wlive s + whold s = wc s /\ wc s <= n.
+Proof. exact (wp_cap_l WFx). Qed.
+Print Assumptions cap_never_exceeded_fx.
+
+(* no_leak: once every worker has finished (function returned or panicked, wg.Done, <-pool)
+   and the dispatcher holds no slot, all slots are free and the WaitGroup is at zero; a
+   panicking user function releases its slot like a returning one (deferred). *)
+Theorem no_leak_mr : forall n items sched,
+  let s := wexec WMr n items sched in
+  (forall tk, In tk (wtasks s) -> wst tk = WDn) -> whold s = 0 -> wc s = 0 /\ wwg s = 0.
+Proof. exact (wp_no_leak_l WMr). Qed.
+Print Assumptions no_leak_mr.
+
+Theorem no_leak_fx : forall n items sched,
+  let s := wexec WFx n items sched in
+  (forall tk, In tk (wtasks s) -> wst tk = WDn) -> whold s = 0 -> wc s = 0 /\ wwg s = 0.
+Proof. exact (wp_no_leak_l WFx). Qed.
+Print Assumptions no_leak_fx.
+
+(* blocked at the cap: the dispatcher cannot take a slot, so no further worker starts *)
+Theorem refused_or_blocked_workers : forall s it, wd s = DAcq it -> wc s = wcap s -> wstep s 0 = None.
+Proof. exact wp_blocked_l. Qed.
+Print Assumptions refused_or_blocked_workers.
+
 (* ---- Pool ---- *)
 
 (* While a create() is in progress (the pool lock is held across the user callback) no other
@@ -210,4 +247,20 @@ Example ex_pool_create_excludes :
   let s := pexec 2 0 [[PGet]; [PGet]; [PGet]] [0;0; 1; 2; 1; 2] in
   (map ppcof (pthreads s), plocked s, pcreated s, pcreating s) =
   ([PCreating 0; PEnter; PEnter], true, 1, 1).
+Proof. vm_compute. reflexivity. Qed.
+
+(* mr, 2 workers, 4 items, the mapper panics on item 1: its slot comes back, one more item is
+   dispatched by the dispatcher that was already waiting for a slot, then it stops (failed) *)
+Example ex_mr_panic :
+  let s := wexec WMr 2 [false; true; false; false]
+                 [0;0;0;0;0; 0;0;0;0; 0; 1; 2; 2;2; 0;0;0; 0; 3; 1;1; 3;3; 0] in
+  (map wst (wtasks s), wc s, wwg s, wfailed s, wd s, witems s) =
+  ([WDn; WDn; WDn], 0, 0, true, DDone, [false]).
+Proof. vm_compute. reflexivity. Qed.
+
+(* fx, 1 worker: the panicking walk function does not leak the slot, all 3 items run *)
+Example ex_fx_panic :
+  let s := wexec WFx 1 [true; false; false]
+                 [0;0;0;0; 1;1;1;1; 0;0;0;0; 2;2;2;2; 0;0;0;0; 3;3;3;3; 0;0;0] in
+  (map wst (wtasks s), wc s, wwg s, wd s) = ([WDn; WDn; WDn], 0, 0, DDone).
 Proof. vm_compute. reflexivity. Qed.
